@@ -164,6 +164,8 @@ def check_role(role: str, sl: T.Term, op: str, o: Outcome, ctx: Dict[str, Any], 
             return False, f"{role} is derived from {'the other clock argument' if F.mentions(v, other) else 'neither clock argument'}"
         from .c11 import clock_encoder_form
         why = clock_encoder_form(v)
+        if why is not None and why.startswith("FOREIGN: "):
+            return None, f"{role}: {why[9:]} (a form this rule does not compare)"
         return why is None, f"{role}: {why}"
     if role == "ARG:ircmd":
         ok = len(atoms) == 2 and atoms[0] == ("L", "00000000") and atoms[1][0] == "hx" and atoms[1][2:] == (0, None)
